@@ -211,30 +211,7 @@ class LayoutGen(object):
         return {"pre": self.filler(), "cmds": [self.cmd(c) for c in prog]}
 
 
-def split_tree(rng, prog):
-    """split a program over files: {name: program}, the main program; `load` commands inserted at random command
-    boundaries (first, middle, last command of the loading file), loaded files may load further files or be empty"""
-    files = {}
-    counter = [0]
-
-    def split(cmds, depth):
-        if depth >= 3 or rng.random() < (0.25 if depth else 0.0):
-            return list(cmds)
-        out = []
-        k = rng.randrange(1, 3)
-        cuts = sorted(rng.randrange(0, len(cmds) + 1) for _ in range(2 * k))
-        pos = 0
-        for a, b in zip(cuts[::2], cuts[1::2]):
-            out += cmds[pos:a]
-            counter[0] += 1
-            name = "f%d.flo" % counter[0]
-            files[name] = split(cmds[a:b], depth + 1)
-            out.append(["load", name])
-            pos = b
-        out += cmds[pos:]
-        return out
-    main = split(prog, 0)
-    return files, main
+split_tree = fb.split_tree
 
 
 def expand_ref(files, main, depth=0):
